@@ -125,9 +125,14 @@ def interface_sources():
             out.append(PRE2 + 'empty @is_you() { %s%s; int v = %s(%s); }' % (un, a, un, a))
         for t in S.SC + ['empty', 'int[]', 'byte[]', 'const byte[]', 'bool[]']:
             out.append(PRE2 + 'empty @is_you() { (%s) is %s; }' % (a, t))
-        out.append(PRE2 + 'empty @is_you() { (%s)[0]; ia[%s]; (%s).length; [%s, %s]; [%s]; sleep([%s][0] is int); }' % (a, a, a, a, a, a, a))
-        out.append(PRE2 + 'empty @is_you() { while (%s) { break; } for (; %s; %s) { break; } try { !truth_is_defeat(%s); } undo { } }' % (a, a, a, a))
-        out.append(PRE2 + 'empty g() { return %s; }\nempty @is_you() { g(); %s; }' % (a, a))
+        # one probe per program: a rejected earlier statement must not hide an escape in a later one
+        for stmt in ('(%s)[0];', 'ia[%s];', 'ia[%s] = 1;', '(%s).length;', 'sleep((%s).length);', '[%s, %s];', '[%s];', 'sleep([%s].length);', 'sleep([%s][0] is int);', '[1, %s];', '[%s, 1];',
+                     'write([%s]);', 'int[] la = [%s];', 'const byte[] lb = [%s];', 'while (%s) { break; }', 'for (; %s;) { break; }', 'for (;; %s) { break; }', 'for (%s;;) { break; }',
+                     'try { !truth_is_defeat(%s); } undo { }', 'if (%s) { }', '%s;', 'int lv[%s];', 'nf2(%s, 1);', 'nf2(1, %s);', 'iv = %s;', 'iv += %s;', 'ia[0] = %s;', 'ba[0] += %s;',
+                     'sleep(%s);', 'write(%s);', 'writeln(%s);'):
+            out.append(PRE2 + 'int nf2(int p, int q) { return p; }\nempty @is_you() { %s }' % stmt.replace('%s', a))
+        for rt in ('empty', 'int', 'byte', 'bool', 'string'):
+            out.append(PRE2 + '%s g() { return %s; }\nempty @is_you() { g(); }' % (rt, a))
     # generator-assertion probes and entry-point rules
     P = 'empty @is_you() { %s }'
     probes = [
